@@ -75,10 +75,27 @@ def run(ctx: Ctx, extended: bool = False) -> None:
     ents = catalog.entries("thorough" if (extended or not ctx.quick) else "quick")
     full_set = {x.cid for x in (ents if (extended or not ctx.quick) else catalog.one_per_class(ctx.tier, ctx.seed))}
     programs = 0
+    # ---- call-history independence across instances and processes (see histlib): one fresh worker process per class builds the class's
+    # configurations in the reverse of this process's order; started now, collected at the end
+    import concurrent.futures as cf
+    import multiprocessing as mp
+    import os
+
+    import histlib
+
+    hseed = 1000 + ctx.seed
+    sibs = catalog.siblings()
+    by_cls: dict = {}
+    for x in list(ents) + sibs:
+        by_cls.setdefault(x.cls, []).append(x.cid)
+    pool = cf.ProcessPoolExecutor(max_workers=max(1, min(6, int(os.environ.get("VERIF_WORKERS", "8")))), mp_context=mp.get_context("spawn"))
+    hfut = {c: pool.submit(histlib.digest_in_fresh_process, list(reversed(cids)), hseed) for c, cids in by_cls.items()}
+    hmain: dict = {}
     for e in ents:
         full = e.cid in full_set   # quick tier: the whole battery for one configuration per class, the eager/aliasing part for every configuration
         env = e.build()
         jreset, jstep = jax.jit(env.reset), jax.jit(env.step)
+        hmain[e.cid] = histlib.digest(env, hseed, jreset, jstep)
         seed = int(rng.integers(1 << 30))
         key = jax.random.PRNGKey(seed)
         info = {"env": e.cid, "cls": e.cls, "reset_seed": seed}
@@ -191,6 +208,25 @@ def run(ctx: Ctx, extended: bool = False) -> None:
         if not full:
             ctx.sample({"env": e.cid, "variants": ["eager", "jit-repeat", "result-aliasing"]})
             continue
+        # --- the LAST transition of a mask-following episode (completion, exact fit, time limit): decisions taken on float results are
+        # where eager and compiled execution part first
+        sT, tsT = jreset(jax.random.PRNGKey(seed + 1))
+        last = None
+        for _ in range(int(e.meta.get("time_limit") or 0) + 64):
+            mb = masked_action(env, tsT, rng)
+            aT = jnp.asarray(mb if mb is not None else sample_action(env, rng))
+            s2T, ts2T = jstep(sT, aT)
+            if int(ts2T.step_type) == 2:
+                last = (sT, aT, (s2T, ts2T))
+                break
+            sT, tsT = s2T, ts2T
+        if last is not None:
+            egT = _eager(lambda: env.step(last[0], last[1]))
+            if egT is not None:
+                record("eager:last-step", egT, last[2])
+            bsT = jax.tree_util.tree_map(lambda x: jnp.stack([x, x]), last[0])
+            vT = jax.jit(jax.vmap(env.step))(bsT, jnp.stack([last[1], last[1]]))
+            record("vmap[2]:last-step", (tidx(vT[0], 1), tidx(vT[1], 1)), last[2])
         # --- vmap over several batch sizes, the case at a random index among different elements
         for B in ([1, 2, 5] if ctx.quick else [1, 2, 5, 8, 32]):
             i = int(rng.integers(B))
@@ -244,6 +280,51 @@ def run(ctx: Ctx, extended: bool = False) -> None:
         if str(jp2) != txt:
             ctx.fail(e.cid, "jaxpr_unstable", "step traces to different jaxprs on two consecutive traces (trace-time hidden state)", info, {"cls": e.cls})
         ctx.sample({"env": e.cid, "prefix": len(actions), "variants": ["eager", "jit", "vmap[1,2,5]", "scan[1,3]", "fresh-instance", "after-interleaving", "re-jit"]})
+    # ---- boundary transitions of the puzzles at several sizes (the solving move), eager vs jit
+    import boundary
+
+    for label, benv, bs, ba in boundary.cases(ctx.quick and not extended, rng):
+        ref = jax.jit(benv.step)(bs, ba)
+        eg = _eager(lambda: benv.step(bs, ba))
+        programs += 1
+        ctx.evaluations += 1
+        ctx.nontrivial.add(("boundary", label))
+        ctx.count("variant_boundary" + ("_last" if int(ref[1].step_type) == 2 else ""))
+        if eg is not None and not tree_close(eg, ref, tol=2e-5):
+            ctx.fail(label.split(":")[0], "variant:eager", f"eager and jit disagree on a boundary transition ({label}) at {first_diff(eg, ref)}",
+                     {"env": label, "action": np.asarray(ba).tolist()}, {"cls": label.split("-")[0]})
+    # ---- collect the call-history check
+    ent_of = {x.cid: x for x in list(ents) + sibs}
+    for x in sibs:
+        try:
+            hmain[x.cid] = histlib.digest(x.build(), hseed)
+        except Exception as ex:  # noqa: BLE001
+            hmain[x.cid] = f"{type(ex).__name__}: {ex}"
+    for c, fu in hfut.items():
+        try:
+            sub = fu.result(timeout=900)
+        except Exception as ex:  # noqa: BLE001
+            ctx.count("history_worker_failed:" + c)
+            ctx.notes.append(f"history worker for {c} failed: {type(ex).__name__}: {ex}") if hasattr(ctx, "notes") else None
+            continue
+        for cid, got in sub.items():
+            mine = hmain.get(cid)
+            programs += 1
+            ctx.evaluations += 1
+            ctx.nontrivial.add((cid, "history"))
+            if isinstance(got, str) or isinstance(mine, str) or mine is None:
+                if (isinstance(got, str)) != (isinstance(mine, str)):
+                    ctx.fail(cid, "history_dependent", f"building the configuration works in one process and fails in the other: fresh={str(got)[:120]} here={str(mine)[:120]}",
+                             {"env": cid, "cls": c, "order_here": by_cls[c]}, {"cls": c})
+                continue
+            ctx.count("variant_fresh-process")
+            same = len(got) == len(mine) and all(np.shape(u) == np.shape(v) and np.asarray(u).dtype == np.asarray(v).dtype and
+                                                 np.allclose(np.asarray(u, np.float64), np.asarray(v, np.float64), rtol=2e-5, atol=2e-5) for u, v in zip(got, mine))
+            if not same:
+                ctx.fail(cid, "history_dependent", "reset/step of a fresh instance differ from the same configuration built first in a fresh process: the result depends on "
+                         f"what was instantiated or called before (this process built {by_cls[c]} in that order, among everything else)",
+                         {"env": cid, "cls": c, "order_here": by_cls[c], "key_seed": hseed}, {"cls": c})
+    pool.shutdown(wait=False, cancel_futures=True)
     ctx.coverage_extra["programs"] = programs
     ctx.coverage_extra["disagreements_checked"] = programs
     ctx.coverage_extra["rule"] = ("one reachable (state, action) per configuration executed in every program variant (eager, jit, vmap batch 1/2/5 at a random index, "
